@@ -50,4 +50,32 @@ func (ctx *SigningContext) hashBody(req *http.Request, verify bool) (err error)
   ensures only-a-request-without-body-hashes-as-empty: verify && !ctx.Signer.excludeBody && old(req.Body == nil) ==> err == nil && gHashedLen == -1 && ctx.BodyHash == sha256Empty
   ghost at entry: gHashedLen := -1
   ghost at call[1] sha256DegistAndEncodeToHexString: gHashedLen := len(data)
+
+// ---- C06: the signing key is derived from the secret of the access key named in THIS request ----
+// the HMAC chain (prefix+secret -> date -> every scope -> suffix) is run in full on every call: the first digest is
+// keyed with the literal's prefix followed by this context's secret, every later one with the previous digest, and
+// the result is the last digest (what HMAC-SHA256 computes is the library's; a key taken from anywhere else - a
+// cache shared between access keys, say - is not this chain)
+ghost var gHCalls int      // hmacDigest calls so far
+ghost var gHPrev int       // the previous digest (its backing array)
+ghost var gHChain bool     // every call so far was keyed as the chain demands
+func hmacDigest(key []byte, data []byte) (r []byte)
+  trusted
+  flag allocates
+  ensures r != nil && fresh(r)
+func formatDate(t time.Time) (d string)
+  trusted
+  pure
+func (ctx *SigningContext) deriveSigningKey() (k []byte)
+  flag allocates
+  requires ctx != nil && ctx.Signer != nil && ctx.Signer.literal != nil
+  modifies gHCalls, gHPrev, gHChain
+  ensures the-key-is-derived-from-this-requests-secret-by-the-whole-chain: gHChain && gHCalls == len(ctx.Scopes) + 2 && ref(k) == gHPrev
+  ghost at entry: gHCalls := 0
+  ghost at entry: gHChain := true
+  ghost at entry: gHPrev := 0
+  ghost at call hmacDigest: gHChain := gHChain && (gHCalls == 0 ? str(key) == ctx.Signer.literal.SigningKeyPrefix ++ ctx.AccessKeySecret : ref(key) == gHPrev)
+  ghost at call hmacDigest: gHPrev := ref(r)
+  ghost at call hmacDigest: gHCalls := gHCalls + 1
+  invariant[1] gHChain && gHCalls == idx$1 + 1 && ref(key) == gHPrev && key != nil
 @*/
